@@ -7,12 +7,15 @@
 ssize_t read_data(zckCtx *zck, char *data, size_t length)
 V_REQUIRES(__CPROVER_rw_ok(zck, sizeof(*zck)))
 V_REQUIRES(length == 0 || data == NULL || __CPROVER_w_ok(data, length))
-V_ASSIGNS(zck->error_state; length > 0 && data != NULL: __CPROVER_object_upto(data, length); g_fpos, g_rd_bytes, g_io_failed, g_last_read)
+V_ASSIGNS(zck->error_state; length > 0 && data != NULL: __CPROVER_object_upto(data, length); g_fpos, g_rd_bytes, g_io_failed, g_last_read, g_watch_seen, g_watch_val)
 V_ENSURES(__CPROVER_return_value >= -1 && (__CPROVER_return_value == -1 || (size_t)__CPROVER_return_value <= length)) /*@C12,C03.read_data.never_more_than_asked*/
 V_ENSURES(__CPROVER_return_value != -1 || zck->error_state > 0) /*@C12.read_data.failure_sets_error*/
 V_ENSURES(__CPROVER_return_value == -1 || zck->error_state == V_OLD(zck->error_state)) /*@C12.read_data.success_keeps_state*/
 V_ENSURES(__CPROVER_return_value < 0 || (g_fpos[G_IX(zck->fd)] == V_OLD(g_fpos[G_IX(zck->fd)]) + (g_off_t)__CPROVER_return_value && g_rd_bytes[G_IX(zck->fd)] == V_OLD(g_rd_bytes[G_IX(zck->fd)]) + (size_t)__CPROVER_return_value)) /*@C12,C09.read_data.position_advances_by_result*/
 V_ENSURES(__CPROVER_return_value >= 0 || g_fpos[G_IX(zck->fd)] == V_OLD(g_fpos[G_IX(zck->fd)])) /*@C12.read_data.position_kept_on_failure*/
+#define RDD_HIT(z, ret) ((z)->fd == g_watch_fd && (ret) > 0 && g_watch_off >= V_OLD(g_fpos[G_IX((z)->fd)]) && g_watch_off - V_OLD(g_fpos[G_IX((z)->fd)]) < (g_off_t)(ret))
+V_ENSURES(!RDD_HIT(zck, __CPROVER_return_value) || (g_watch_seen == 1 && g_watch_val == ((unsigned char *)data)[g_watch_off - V_OLD(g_fpos[G_IX(zck->fd)])])) /*@C13,C06.read_data.delivers_the_file_byte_at_every_offset*/
+V_ENSURES(RDD_HIT(zck, __CPROVER_return_value) || (g_watch_seen == V_OLD(g_watch_seen) && g_watch_val == V_OLD(g_watch_val))) /*@C13.read_data.watch_unchanged_elsewhere*/
 V_ENSURES((!((__CPROVER_return_value < 0 || (size_t)__CPROVER_return_value < length)) || (g_io_failed >= V_OLD(g_io_failed))) && (((__CPROVER_return_value < 0 || (size_t)__CPROVER_return_value < length)) || (g_io_failed == V_OLD(g_io_failed)))) /*@C12.read_data.ghost_flag*/
 ;
 
@@ -23,6 +26,7 @@ V_ASSIGNS(zck->error_state, g_fpos, g_wr_bytes, g_io_failed, g_win_bad)
 V_ENSURES(__CPROVER_return_value == 1 || __CPROVER_return_value == 0 || __CPROVER_return_value == -1) /*@C12.write_data.ret*/
 V_ENSURES(__CPROVER_return_value != 1 || (g_wr_bytes[G_IX(fd)] == V_OLD(g_wr_bytes[G_IX(fd)]) + length && g_fpos[G_IX(fd)] == V_OLD(g_fpos[G_IX(fd)]) + (g_off_t)length)) /*@C12.write_data.success_means_all_bytes_accepted*/
 V_ENSURES(__CPROVER_return_value == 1 || zck->error_state > 0) /*@C12.write_data.failure_sets_error*/
+V_ENSURES(__CPROVER_return_value != -1 || V_OLD(zck->error_state) > 0) /*@C12.write_data.minus_one_only_for_context_already_in_error*/
 V_ENSURES(__CPROVER_return_value != 1 || zck->error_state == V_OLD(zck->error_state)) /*@C12.write_data.success_keeps_state*/
 V_ENSURES(fd != g_win_fd || g_win_bad == 1 || g_win_bad == V_OLD(g_win_bad)) /*@C05.write_data.window_flag_monotone*/
 V_ENSURES(fd != g_win_fd || V_OLD(g_win_bad) != 0 || g_win_bad == 1 || g_fpos[G_IX(fd)] == V_OLD(g_fpos[G_IX(fd)]) || (V_OLD(g_fpos[G_IX(fd)]) >= g_win_lo && g_fpos[G_IX(fd)] <= g_win_hi)) /*@C05.write_data.window*/
